@@ -134,7 +134,17 @@ Definition chk_search (x l : list Qc) (r : list (obs (list Z))) : bool :=
                 out.append({"exc": exn_name(e)})
         # the searches only read: the arrays of the caller are what they were (all six calls above ran on the same two arrays,
         # so a call that rearranged them would also have changed the later answers)
-        return {"res": out, "input_mutated": not (np.array_equal(x, np.array(case["x"], dtype=float)) and np.array_equal(l, np.array(case["lookup"], dtype=float)))}
+        res = {"res": out, "input_mutated": not (np.array_equal(x, np.array(case["x"], dtype=float)) and np.array_equal(l, np.array(case["lookup"], dtype=float)))}
+        # ... and each call answers for the array as it is NOW: the caller shifts the very same array object in place and asks again
+        x += 2.0
+        again = []
+        for s, fill in (("lower", True), ("higher", False), ("closest", True)):
+            try:
+                again.append({"val": [int(v) for v in sau.find_closest_element_indices_to_values(x, l, strategy=s, fill_not_valid=fill)]})
+            except Exception as e:
+                again.append({"exc": exn_name(e)})
+        res["after_edit"] = again
+        return res
 
     def coq(self, case, obs):
         def enc(r):
@@ -158,6 +168,13 @@ Definition chk_search (x l : list Qc) (r : list (obs (list Z))) : bool :=
                                      signature={"aspect": "unknown-strategy"}))
             return fails
         x, l = case["x"], case["lookup"]
+        x2 = [float(np.float64(v) + 2.0) for v in x]
+        if "after_edit" in obs and len(set(x2)) == len(x2) and not any(near_tie(x2, v) for v in l):
+            for (s, fill), r in zip((("lower", True), ("higher", False), ("closest", True)), obs["after_edit"]):
+                exp = [brute(x2, v, s, fill) for v in l]
+                if r.get("val") != exp:
+                    fails.append(Failure(aspect="stale-array-" + s, what="%s fill=%s asked again after the caller shifted the same array in place (x += 2): returned %s, defined neighbours in %s are %s (lookup=%s)" % (
+                        s, fill, r.get("val") or r.get("exc"), x2, exp, l), signature={"aspect": "stale-array", "strategy": s}))
         for (s, fill), r in zip(COMBOS, obs["res"]):
             if "exc" in r:
                 fails.append(Failure(aspect="raises", what="%s fill=%s raised %s on x=%s lookup=%s" % (s, fill, r["exc"], x, l),
